@@ -351,3 +351,9 @@ u64 K(16find_last_not_ofEcm)(void* t, u8 ch, u64 pos) {
   for (;; i--) { if (s->p[i] != (char)ch) return i; if (i == 0) break; }
   return NPOS;
 }
+void M(12_M_constructEmc)(void* t, u64 n, u8 ch) {
+  vstr* s = t;
+  if (n > 15) { s->p = vs_alloc(n); s->u.cap = n; } else s->p = s->u.buf;
+  for (u64 i = 0; i < n; i++) s->p[i] = (char)ch;
+  vs_setlen(s, n);
+}
